@@ -53,6 +53,7 @@ func fakeNamed(name string) *types.Named {
 }
 
 var hashType, blockType, cbcType, rc4Type = fakeNamed("Hash"), fakeNamed("Block"), fakeNamed("CBC"), fakeNamed("RC4")
+var runtimeErrType = fakeNamed("RuntimeError")
 
 func catBytes(bs []*Term) *Term {
 	if len(bs) == 0 {
